@@ -537,7 +537,7 @@ pub fn run_cli_case(scratch: &str, tag: &str, case: &CliCase) -> Vec<String> {
             args.push("-l".into());
             args.push("a.alias".into());
         }
-        let o = proc::run(RunSpec { exe: proc::ASCA_BIN, args, cwd: Some(&dir), env: proc::sim_env(k), stdin: vec![], timeout_ms: 20_000 })
+        let o = proc::run(RunSpec { exe: &proc::asca_bin(), args, cwd: Some(&dir), env: proc::sim_env(k), stdin: vec![], timeout_ms: 20_000 })
             .unwrap_or_else(|e| harness_error(&format!("spawn asca: {e}")));
         if o.timed_out {
             outs.push("<hang>".to_string());
